@@ -1,6 +1,7 @@
 -- root of the library: everything the checks build
 import CtyModel.Props.C07
 import CtyModel.Props.C03
+import CtyModel.Props.C08
 import CtyModel.Props.C10
 import CtyModel.Props.C11
 import CtyModel.Props.C14
